@@ -84,3 +84,45 @@ Proof.
   split; [vm_compute; reflexivity|].
   apply (post_complete ex_open_leaky closed0). vm_compute. auto.
 Qed.
+
+(* ---- part 2: a closed instrument performs no device I/O (RPC methods) ------------------------------ *)
+Require Import QV.C19.ProofsRpc.
+
+(* Generic theorem for the per-method obligations of coq/gen/C19Methods.v: if [closed_safe m = true] then EVERY
+   execution of the method on a closed instrument with the link released — whatever Python code raises or not,
+   whichever branch is taken, however often a loop runs — ends with nothing touched (no operation reached the
+   device or any other resource of the driver) and flag and link unchanged. *)
+Theorem C19_closed_safe : forall p,
+  closed_safe p = true -> forall o s', mexec p m_closed0 o s' -> s' = m_closed0.
+Proof. exact closed_safe_sound. Qed.
+Print Assumptions C19_closed_safe.
+
+(* A method never changes flag or link, in any state (the translator refuses methods that could). *)
+Theorem C19_method_keeps_state : forall p s o s',
+  mexec p s o s' -> m_flag s' = m_flag s /\ m_held s' = m_held s.
+Proof. exact method_keeps_state. Qed.
+Print Assumptions C19_method_keeps_state.
+
+(* The outcomes the analyser allows cover every execution (this is what the dynamic tie compares with). *)
+Theorem C19_method_outcomes : forall p s o s',
+  mexec p s o s' -> allowed o (an (m_flag s) (m_held s) p) = true.
+Proof. exact outcome_sound. Qed.
+Print Assumptions C19_method_outcomes.
+
+(* Non-vacuity: guarded by the state check; guarded only by the transport's own refusal; not guarded. *)
+Example C19_example_method_guarded :
+  closed_safe (MCall (mseql [MCheckOpen; MEff 3; MDev 4; MReturn])) = true.
+Proof. vm_compute. reflexivity. Qed.
+Example C19_example_method_transport_refuses :
+  closed_safe (MCall (mseql [MIo 1; MLoop (mseql [MDev 2; MIo 3]); MDev 4; MEff 5])) = true.
+Proof. vm_compute. reflexivity. Qed.
+Example C19_example_method_unguarded :
+  closed_safe (MCall (mseql [MIo 1; MEff 2; MCheckOpen; MDev 3])) = false /\
+  mexec (MCall (mseql [MIo 1; MEff 2; MCheckOpen; MDev 3])) m_closed0 OExc (mk_mst false false [2%N]).
+Proof.
+  split; [vm_compute; reflexivity|].
+  change OExc with (call_out OExc). apply M_Call. simpl.
+  eapply M_SeqN; [apply M_IoOk|].
+  eapply M_SeqN; [apply M_EffOk|].
+  apply M_SeqA; [|discriminate]. apply M_CheckOpenRaise. reflexivity.
+Qed.
